@@ -561,6 +561,74 @@ theorem inv_writeTo {S : Bytes} (b : Reader) (ws : WScript) (h : RInv S b) :
   · exact hw
   · exact inv_writeToLoop _ b b2 ws2 m o hw.1 hw.2
 
+/-! #### delegated WriteTo -/
+
+theorem wsWrite_le0 (ws : WScript) (p : Bytes) : (wsWrite ws p).1 ≤ p.length := by
+  unfold wsWrite; split <;> simp <;> omega
+
+theorem srcWriteTo_spec (src : Script) (ws : WScript) :
+    (srcWriteTo src ws).2.2.2.2 ++ srcBytes (srcWriteTo src ws).2.2.1 = srcBytes src ∧
+      (srcWriteTo src ws).2.2.2.2.length = (srcWriteTo src ws).1 := by
+  induction src generalizing ws with
+  | nil => simp [srcWriteTo, srcBytes]
+  | cons hd rest ih =>
+    obtain ⟨d, e⟩ := hd
+    unfold srcWriteTo
+    have hk := wsWrite_le0 ws d
+    generalize wsWrite ws d = x at hk
+    obtain ⟨k, we, ws'⟩ := x
+    simp only at hk ⊢
+    split
+    · simp [srcBytes, ← List.append_assoc]; omega
+    · split
+      · simp [srcBytes, ← List.append_assoc]; omega
+      · have hkd : k = d.length := by omega
+        split
+        · simp [srcBytes, hkd]
+        · split
+          · simp [srcBytes, hkd]
+          · have := ih ws'
+            generalize srcWriteTo rest ws' = y at this
+            obtain ⟨m, err, s', w', o⟩ := y
+            simp only at this ⊢
+            refine ⟨?_, ?_⟩
+            · simp [srcBytes, List.append_assoc, this.1]
+            · simp [this.2, hkd]
+
+/-- what survives of the invariant on the delegated path: stream and counter (NOT the clauses that make
+    UnreadByte safe: the code does not touch lastByte / r / w there — finding `deleg-stale-unread`) -/
+theorem writeToWT_partial {S : Bytes} (b : Reader) (ws : WScript) (h : RInv S b)
+    (hc : (wsWrite ws b.cur).2.1 = 0 → b.cur.length ≤ (wsWrite ws b.cur).1) :
+    (b.writeToWT ws).1.consumed ++ (b.writeToWT ws).1.cur ++ srcBytes (b.writeToWT ws).1.src = S ∧
+      (b.writeToWT ws).1.total = (b.writeToWT ws).1.consumed.length ∧
+      (b.writeToWT ws).1.consumed = b.consumed ++ (b.writeToWT ws).2.2.2 := by
+  have hw := inv_writeBuf b ws h
+  have hcur : (b.writeBuf ws).2.2.1 = 0 → (b.writeBuf ws).1.cur = [] := by
+    unfold Reader.writeBuf
+    simp only
+    intro he
+    have := hc he
+    simp [Reader.consume]; omega
+  unfold Reader.writeToWT
+  generalize b.writeBuf ws = x at hw hcur
+  obtain ⟨b1, n, e, ws1, o⟩ := x
+  simp only at hw hcur ⊢
+  split
+  · exact ⟨hw.1.stream, hw.1.cnt, hw.2⟩
+  · rename_i he
+    have he0 : e = 0 := by omega
+    have hc1 := hcur he0
+    have hs := srcWriteTo_spec b1.src ws1
+    generalize srcWriteTo b1.src ws1 = y at hs
+    obtain ⟨m, err, s', w', o2⟩ := y
+    simp only at hs ⊢
+    refine ⟨?_, ?_, ?_⟩
+    · have := hw.1.stream
+      rw [hc1] at this ⊢
+      rw [← this, ← hs.1]; simp [List.append_assoc]
+    · rw [List.length_append, hs.2, hw.1.cnt]
+    · rw [hw.2, List.append_assoc]
+
 theorem inv_apply {S : Bytes} (b : Reader) (op : ROp) (h : RInv S b) : RInv S (b.apply op) := by
   cases op with
   | rd n => exact (inv_read b n h).1
@@ -933,6 +1001,40 @@ theorem winv_writeRune (b : Writer) (r : Nat) (h : WInv b) : WInv (b.writeRune r
           · exact (winv_write false _ _ hf).1
           · exact winv_appendRune _ _ hf
       · exact winv_appendRune _ _ h
+
+theorem sinkReadFromLoop_len (f : Nat) (src : Script) (n : Nat) (out : Bytes) :
+    (sinkReadFromLoop f src n out).1 + out.length = n + (sinkReadFromLoop f src n out).2.2.length ∧
+      out <+: (sinkReadFromLoop f src n out).2.2 := by
+  induction f generalizing src n out with
+  | zero => simp [sinkReadFromLoop]
+  | succ f ih =>
+    unfold sinkReadFromLoop
+    simp only
+    split
+    · simp; omega
+    · split
+      · simp; omega
+      · have := ih (srcRead src 8).2.2 (n + (srcRead src 8).1.length) (out ++ (srcRead src 8).1)
+        generalize sinkReadFromLoop f _ _ _ = y at this ⊢
+        refine ⟨?_, (List.prefix_append _ _).trans this.2⟩
+        have h1 := this.1
+        simp only [List.length_append] at h1
+        omega
+
+theorem winv_readFromRF (b : Writer) (src : Script) (h : WInv b) : WInv (b.readFromRF src).1 := by
+  unfold Writer.readFromRF
+  split
+  · rename_i hb
+    have hbe : b.buf = [] := by simpa using hb
+    have hl := (sinkReadFromLoop_len (srcMeasure src + 2) src 0 []).1
+    generalize sinkReadFromLoop (srcMeasure src + 2) src 0 [] = x at hl
+    obtain ⟨n, e, o⟩ := x
+    simp only at hl ⊢
+    refine ⟨?_, ?_⟩
+    · simp only [hbe, List.append_nil]
+      have := h.stream; rw [hbe, List.append_nil] at this; rw [this]
+    · simp only [List.length_append]; rw [h.cnt]; simp at hl; omega
+  · exact winv_readFrom b src h
 
 theorem winv_apply (b : Writer) (op : WOp) (h : WInv b) : WInv (b.apply op) := by
   cases op with
